@@ -566,6 +566,16 @@ func runBatchCheck(bc *BatchCheck, tier string) *evid.Report {
 	r.Extra["counters"] = counts
 	r.Extra["programs"] = len(items)
 	r.Extra["programs_in_batch"] = len(built)
+	if bc.Mode == "c05" {
+		// the model-checking state space of C05 is the set of database states reached by the BFS
+		r.StatesN = counts["states"]
+		r.Transitions = counts["transitions"]
+		r.Extra["database_states_reached"] = counts["states"]
+		r.Extra["crud_transitions_executed"] = counts["transitions"]
+	} else if n := counts["values"] + counts["documents"] + counts["rand-calls"]; n > 0 {
+		r.Extra["value_level_runs"] = n
+		r.Transitions += counts["value-transitions"] + counts["rand-transitions"]
+	}
 	return r
 }
 
